@@ -542,3 +542,55 @@ func (t Transform) ApplyShape(s *exact.Shape) (*exact.Shape, bool) {
 	}
 	return out, true
 }
+
+// Sawtooth returns a simple ring with a flat bottom and a zigzag top: w teeth
+// of width 2 and random heights, total width 2w, so that many vertices share
+// the same x and y levels (tips on the mid lines of the bounding box).
+func Sawtooth(r *rand.Rand, w int, cx, cy int64) exact.Ring {
+	h := int64(4 + 2*r.Intn(15))
+	var v exact.Ring
+	add := func(x, y int64) { v = append(v, exact.P{X: (x + cx) * U, Y: (y + cy) * U}) }
+	add(0, 0)
+	add(int64(2*w), 0)
+	add(int64(2*w), h)
+	for i := w - 1; i >= 0; i-- {
+		dip := h / 2
+		if r.Intn(3) == 0 {
+			dip = 1 + r.Int63n(h-1)
+		}
+		add(int64(2*i+1), dip)
+		add(int64(2*i), h)
+	}
+	if !v.Simple() {
+		return Corpus[0].Ring(4, cx*U, cy*U)
+	}
+	return v
+}
+
+// RandBigRing returns a simple ring with roughly 34..90 vertices, large
+// enough for the quadtree index to split.
+func RandBigRing(r *rand.Rand) exact.Ring {
+	var ring exact.Ring
+	switch r.Intn(3) {
+	case 0:
+		ring = Sawtooth(r, 17+r.Intn(20), -int64(r.Intn(40)), -int64(r.Intn(10)))
+	case 1:
+		ring = RandOrtho(r, 10+r.Intn(12), 16, -8, -8)
+		ring = SplitEdges(r, SplitEdges(r, ring))
+	default:
+		rad := int64(16 + 8*r.Intn(3))
+		ring = RandStar(r, 40+r.Intn(50), rad, 0, 0)
+	}
+	if r.Intn(2) == 0 {
+		ring = Reverse(ring)
+	}
+	return Rotate(ring, r.Intn(len(ring)))
+}
+
+// StarInBox returns a star-shaped ring of about n vertices whose lattice
+// radius is rad around (cx,cy): its extreme vertices tend to lie on the
+// box [cx-rad,cx+rad]x[cy-rad,cy+rad].
+func StarInBox(r *rand.Rand, n int, rad, cx, cy int64) exact.Ring {
+	ring := RandStar(r, n, rad, cx, cy)
+	return ring
+}
